@@ -22,12 +22,14 @@ def parseInts (xs : List String) : Option (List Int) :=
     | _, _ => none) (some [])
 
 /-- one step of a `cons` op: `c<time>` Consensus.ChangeView, `t<time>` Consensus.TryChangeView,
-    `o<time>` DPOSManager.OnChangeView, `r` a ResetView message arriving at the manager. -/
-inductive ConsStep | change (t : Int) | try_ (t : Int) | timer (t : Int) | resetMsg
+    `o<time>` DPOSManager.OnChangeView, `r` a ResetView message arriving at the manager,
+    `s` the consensus status sent over the wire and adopted again. -/
+inductive ConsStep | change (t : Int) | try_ (t : Int) | timer (t : Int) | resetMsg | status
 
 def parseStep (x : String) : Option ConsStep :=
   match x.toList with
   | ['r'] => some .resetMsg
+  | ['s'] => some .status
   | 'c' :: rest => (int? (String.ofList rest)).map .change
   | 't' :: rest => (int? (String.ofList rest)).map .try_
   | 'o' :: rest => (int? (String.ofList rest)).map .timer
@@ -55,6 +57,9 @@ def runCons (forkH height : Nat) (running : Bool) (tol : Int) (n me : Nat) :
         let resets' := if b then resets + 1 else resets
         runCons forkH height running tol n me s' resets' xs ((fmtState s' ++ s!",r{resets'}") :: acc)
       | none => none
+    | .status =>
+      -- CollectConsensusStatus → wire → RecoverFromConsensusStatus: the view is carried unchanged
+      runCons forkH height running tol n me s resets xs (fmtState s :: acc)
     | .resetMsg =>
       runCons forkH height running tol n me s resets xs
         ((if mgrForwardsResetView forkH height n me then "f1" else "f0") :: acc)
